@@ -149,18 +149,25 @@ func c02TrueOn(c *core.Ctx, pkgRel string, fo *types.Func, exact string) (holds,
 func c02ValidateSpec(c *core.Ctx, a *c02Anchors, f *flow.Func, vjObj *types.Func, isSpecMap func(types.Type) bool) {
 	cons := fname(c02pl, "Spec", "Validate")
 	fd := f.Node.(*ast.FuncDecl)
-	d := c02NewDefs(f)
-	pm := parentMap(f.Body)
+	// Spec.Validate together with the same-package helpers it calls (the jump validator excepted)
+	d := c02ReachDefs(f, 3)
 	fFilters := c02FieldByYAML(c, c02pl, "Spec", "filters")
 	if fFilters == nil {
 		return
 	}
-	news := callsTo(f, f.Body, false, c02fl+".NewSpec")
-	if !c.RequireCount("R-C02-7", "filters.NewSpec call sites in Spec.Validate", len(news), 1) {
+	var news []*ast.CallExpr
+	for _, g := range d.funcs {
+		news = append(news, callsTo(g, g.Body, false, c02fl+".NewSpec")...)
+	}
+	if !c.RequireCount("R-C02-7", "filters.NewSpec call sites in Spec.Validate and its helpers", len(news), 1) {
 		return
 	}
 	newSpec := news[0]
-	as, ok := pm[newSpec].(*ast.AssignStmt)
+	if d.lift(newSpec) == nil {
+		c.Undecide("R-C02-7", cons+"|every filter spec is built", pos(c, newSpec), "filters.NewSpec is called from a helper with several call sites")
+		return
+	}
+	as, ok := d.parent(newSpec).(*ast.AssignStmt)
 	if !ok || len(as.Lhs) != 2 {
 		c.Violate("R-C02-7", cons+"|filter spec built and its error checked", pos(c, newSpec), "the results of filters.NewSpec are not both kept: a filter spec that fails its own validation is accepted")
 		return
@@ -171,7 +178,21 @@ func c02ValidateSpec(c *core.Ctx, a *c02Anchors, f *flow.Func, vjObj *types.Func
 		c.Violate("R-C02-7", cons+"|filter spec built and its error checked", pos(c, newSpec), "the spec or the error returned by filters.NewSpec is discarded: a filter spec that fails its own validation is accepted")
 		return
 	}
-	loops := enclosingLoops(f.Body, newSpec)
+	// the loop over the filters: in the function of the call or in one that reaches it
+	var loops []ast.Stmt
+	var lf *flow.Func // the function containing that loop
+	for n := ast.Node(newSpec); n != nil; {
+		g := d.owner(n)
+		ls := enclosingLoops(g.Body, n)
+		if len(ls) > 0 && lf == nil {
+			lf = g
+		}
+		loops = append(loops, ls...)
+		if g == f {
+			break
+		}
+		n = d.site[g]
+	}
 	if len(loops) != 1 {
 		c.Violate("R-C02-7", cons+"|every filter spec is built", pos(c, newSpec), "filters.NewSpec is not called from a single loop over the spec's filters")
 		return
@@ -182,11 +203,13 @@ func c02ValidateSpec(c *core.Ctx, a *c02Anchors, f *flow.Func, vjObj *types.Func
 		return
 	}
 	_, overFilters := d.fieldSel(loop.X, fFilters)
-	rawOK := len(newSpec.Args) == 3 && loop.Value != nil && c02Obj(f, newSpec.Args[2]) == c02Obj(f, loop.Value) && c02Obj(f, loop.Value) != nil
+	rawOK := len(newSpec.Args) == 3 && loop.Value != nil && d.rootObj(newSpec.Args[2]) == c02Obj(f, loop.Value) && c02Obj(f, loop.Value) != nil
 	c.Check(overFilters && rawOK, "R-C02-7", cons+"|every filter spec is built", pos(c, loop),
 		"range over Spec.Filters, each element handed to filters.NewSpec",
 		"the loop building filter specs does not range over the spec's `filters` list with the element as raw spec: some filters are not validated")
-	for _, x := range breaksOut(f, loop, labelOf(f.Body, loop)) {
+	// nodes executed inside the loop: its body and the helpers called from it
+	inLoop := func(visit func(n ast.Node) bool) { d.inside(loop.Body, lf, visit) }
+	for _, x := range breaksOut(lf, loop, labelOf(lf.Body, loop)) {
 		if es, ok := x.(*ast.ExprStmt); ok {
 			if call, ok := es.X.(*ast.CallExpr); ok {
 				if b, ok := f.Callee(call).(*types.Builtin); ok && b.Name() == "panic" {
@@ -201,7 +224,7 @@ func c02ValidateSpec(c *core.Ctx, a *c02Anchors, f *flow.Func, vjObj *types.Func
 	var store *ast.AssignStmt
 	var storeIx *ast.IndexExpr
 	nstores := 0
-	ast.Inspect(loop.Body, func(n ast.Node) bool {
+	inLoop(func(n ast.Node) bool {
 		s, ok := n.(*ast.AssignStmt)
 		if !ok || len(s.Lhs) != 1 || len(s.Rhs) != 1 {
 			return true
@@ -216,42 +239,43 @@ func c02ValidateSpec(c *core.Ctx, a *c02Anchors, f *flow.Func, vjObj *types.Func
 		}
 		return true
 	})
-	if !c.RequireCount("R-C02-7", "stores into the name → spec map in Spec.Validate", nstores, 1) {
+	if !c.RequireCount("R-C02-7", "stores into the name → spec map in the filter loop", nstores, 1) {
 		return
 	}
 	if nstores > 1 {
 		c.Undecide("R-C02-7", cons+"|spec registered under its name", pos(c, store), "more than one store into the spec map")
 		return
 	}
-	mapObj := c02Obj(f, storeIx.X)
+	mapObj := d.canon(storeIx.X)
+	specC := d.canonObj(specObj)
 	K := d.norm(storeIx.Index)
 	keyOK := false
 	if call, ok := d.alias(storeIx.Index).(*ast.CallExpr); ok {
 		if sel, ok := ast.Unparen(call.Fun).(*ast.SelectorExpr); ok {
-			if s := f.Info.Selections[sel]; s != nil && s.Obj().Name() == "Name" && c02Obj(f, sel.X) == specObj {
+			if s := f.Info.Selections[sel]; s != nil && s.Obj().Name() == "Name" && d.canon(sel.X) == specC {
 				keyOK = true
 			}
 		}
 	}
-	c.Check(keyOK && c02Obj(f, store.Rhs[0]) == specObj, "R-C02-7", cons+"|spec registered under its name", pos(c, store),
+	c.Check(keyOK && d.canon(store.Rhs[0]) == specC, "R-C02-7", cons+"|spec registered under its name", pos(c, store),
 		"specs[spec.Name()] = spec with the spec just built",
 		"the spec map is not filled as specs[spec.Name()] = spec: jump validation looks filters up by FlowNode.FilterName, so nodes are validated against the wrong filter kind (or reported missing)")
 
 	// duplicate check facts
 	var dupOK []string // fact keys whose False value (ok variable) proves absence
 	var dupNil []string
-	ast.Inspect(loop.Body, func(n ast.Node) bool {
+	inLoop(func(n ast.Node) bool {
 		switch x := n.(type) {
 		case *ast.AssignStmt:
 			if len(x.Lhs) == 2 && len(x.Rhs) == 1 {
-				if ix, ok := ast.Unparen(x.Rhs[0]).(*ast.IndexExpr); ok && c02Obj(f, ix.X) == mapObj && d.norm(ix.Index) == K {
+				if ix, ok := ast.Unparen(x.Rhs[0]).(*ast.IndexExpr); ok && d.canon(ix.X) == mapObj && d.norm(ix.Index) == K {
 					if id, ok := ast.Unparen(x.Lhs[1]).(*ast.Ident); ok && id.Name != "_" {
 						dupOK = append(dupOK, f.VarKey(id))
 					}
 				}
 			}
 		case *ast.IndexExpr:
-			if c02Obj(f, x.X) == mapObj && d.norm(x.Index) == K && x != storeIx {
+			if d.canon(x.X) == mapObj && d.norm(x.Index) == K && x != storeIx {
 				dupNil = append(dupNil, f.NilKey(x))
 			}
 		}
@@ -261,7 +285,7 @@ func c02ValidateSpec(c *core.Ctx, a *c02Anchors, f *flow.Func, vjObj *types.Func
 	var resCalls []string // CallKey facts whose False value proves name != END
 	var resEq []string
 	helperBad := ""
-	ast.Inspect(loop.Body, func(n ast.Node) bool {
+	inLoop(func(n ast.Node) bool {
 		switch x := n.(type) {
 		case *ast.CallExpr:
 			fo, ok := f.Callee(x).(*types.Func)
@@ -316,14 +340,17 @@ func c02ValidateSpec(c *core.Ctx, a *c02Anchors, f *flow.Func, vjObj *types.Func
 		}
 	}
 	var vjCalls []*ast.CallExpr
-	for _, call := range calls(f.Body, false) {
-		if f.Callee(call) == types.Object(vjObj) {
-			vjCalls = append(vjCalls, call)
+	for _, g := range d.funcs {
+		for _, call := range calls(g.Body, false) {
+			if f.Callee(call) == types.Object(vjObj) {
+				vjCalls = append(vjCalls, call)
+			}
 		}
 	}
 	var badIter *flow.State
 	res := analyze(c, f, flow.Config{
 		NoHavoc: true,
+		Inline:  inlineSamePkg(f, vjObj),
 		OnBlock: func(st *flow.State, b *cfg.Block) {
 			if b.Stmt != ast.Stmt(loop) {
 				return
@@ -341,7 +368,7 @@ func c02ValidateSpec(c *core.Ctx, a *c02Anchors, f *flow.Func, vjObj *types.Func
 		},
 		OnCall: func(st *flow.State, call *ast.CallExpr, callee types.Object, deferred bool) {
 			if callee == types.Object(vjObj) {
-				good := len(call.Args) == 1 && c02Obj(f, call.Args[0]) == mapObj && !st.Is(evIn, flow.True)
+				good := len(call.Args) == 1 && d.canon(call.Args[0]) == mapObj && !st.Is(evIn, flow.True)
 				st.Set(evVJ, boolToVal(good))
 			}
 		},
@@ -476,7 +503,28 @@ func isErrType(t types.Type) bool {
 // c02ValidateJump decides the shape of the jump validator.
 func c02ValidateJump(c *core.Ctx, a *c02Anchors, f *flow.Func, cons string, isSpecMap func(types.Type) bool) {
 	fd := f.Node.(*ast.FuncDecl)
-	d := c02NewDefs(f)
+	// the jump validator together with the same-package helpers it calls
+	d := c02ReachDefs(f, 3)
+	// loopsAround counts the loops enclosing a node along the chain of helpers up to f and returns
+	// the node (or call) in f standing for it
+	loopsAround := func(n ast.Node) (int, ast.Node) {
+		k := 0
+		for i := 0; i < 8 && n != nil; i++ {
+			g := d.owner(n)
+			if g == nil {
+				return -1, nil
+			}
+			if g == f {
+				return k + len(enclosingLoops(f.Body, n)), n
+			}
+			k += len(enclosingLoops(g.Body, n))
+			if d.site[g] == nil {
+				return -1, nil
+			}
+			n = d.site[g]
+		}
+		return -1, nil
+	}
 	fSpecFlow := c02FieldByYAML(c, c02pl, "Spec", "flow")
 	fResults := structField(c, c02fl, "Kind", "Results")
 	if fSpecFlow == nil || fResults == nil {
@@ -509,7 +557,7 @@ func c02ValidateJump(c *core.Ctx, a *c02Anchors, f *flow.Func, cons string, isSp
 		}
 		return ix
 	}
-	ast.Inspect(f.Body, func(n ast.Node) bool {
+	incVisit := func(n ast.Node) bool {
 		switch x := n.(type) {
 		case *ast.IncDecStmt:
 			if ix := isCounter(x.X); ix != nil && x.Tok == token.INC {
@@ -527,24 +575,34 @@ func c02ValidateJump(c *core.Ctx, a *c02Anchors, f *flow.Func, cons string, isSp
 			}
 		}
 		return true
-	})
+	}
+	for _, g := range d.funcs {
+		ast.Inspect(g.Body, incVisit)
+	}
 	if !c.RequireCount("R-C02-7", "target counter increments in the jump validator", len(incs), 1) {
 		return
 	}
 	for i := range incs {
 		// several increments are fine if they count the same thing in the same loop
-		if d.norm(incIxs[i]) != d.norm(incIxs[0]) || len(enclosingLoops(f.Body, incs[i])) != len(enclosingLoops(f.Body, incs[0])) ||
-			(len(enclosingLoops(f.Body, incs[i])) > 0 && enclosingLoops(f.Body, incs[i])[0] != enclosingLoops(f.Body, incs[0])[0]) {
+		ki, ui := loopsAround(incs[i])
+		k0, u0 := loopsAround(incs[0])
+		if ui == nil || u0 == nil {
+			c.Undecide("R-C02-7", cons+"|targets counted from later nodes only", pos(c, incs[i]), "the target counter is updated in a helper with several call sites")
+			return
+		}
+		if d.norm(incIxs[i]) != d.norm(incIxs[0]) || ki != k0 ||
+			(len(enclosingLoops(f.Body, ui)) > 0 && enclosingLoops(f.Body, ui)[0] != enclosingLoops(f.Body, u0)[0]) {
 			c.Undecide("R-C02-7", cons+"|targets counted from later nodes only", pos(c, incs[i]), "several statements update the target counter with different keys or in different loops")
 			return
 		}
 	}
 	incIx = incIxs[0]
 	inc := incs[0]
-	vtObj := c02Obj(f, incIx.X)
-	loops := enclosingLoops(f.Body, inc)
-	if len(loops) != 1 {
-		c.Violate("R-C02-7", cons+"|targets counted from later nodes only", pos(c, inc), sprintf("the target counter is incremented inside %d loops (expected: once per node of the flow loop)", len(loops)))
+	vtObj := d.canon(incIx.X)
+	nloops, incUp := loopsAround(inc)
+	loops := enclosingLoops(f.Body, incUp)
+	if nloops != 1 || len(loops) != 1 {
+		c.Violate("R-C02-7", cons+"|targets counted from later nodes only", pos(c, inc), sprintf("the target counter is incremented inside %d loops (expected: once per node of the flow loop)", nloops))
 		return
 	}
 	outer := loops[0]
@@ -636,13 +694,13 @@ func c02ValidateJump(c *core.Ctx, a *c02Anchors, f *flow.Func, cons string, isSp
 
 	// spec lookup of the node's filter
 	var specID, specOK *ast.Ident
-	ast.Inspect(f.Body, func(n ast.Node) bool {
+	d.inside(f.Body, f, func(n ast.Node) bool {
 		as, ok := n.(*ast.AssignStmt)
 		if !ok || len(as.Rhs) != 1 {
 			return true
 		}
 		ix, ok := ast.Unparen(as.Rhs[0]).(*ast.IndexExpr)
-		if !ok || c02Obj(f, ix.X) != mapParam || mapParam == nil {
+		if !ok || d.rootObj(ix.X) != mapParam || mapParam == nil {
 			return true
 		}
 		if base, ok := d.fieldSel(ix.Index, a.fName); ok && d.norm(base) == N {
@@ -657,11 +715,15 @@ func c02ValidateJump(c *core.Ctx, a *c02Anchors, f *flow.Func, cons string, isSp
 		c.Undecide("R-C02-7", cons+"|unknown filter rejected", pos(c, fd), "cannot find the lookup specs[N.FilterName]")
 		return
 	}
-	specObj := c02Obj(f, specID)
+	specObj := d.canonObj(c02Obj(f, specID))
+	if d.owner(specID) != f {
+		c.Undecide("R-C02-7", cons+"|unknown filter rejected", pos(c, specID), "the lookup specs[N.FilterName] sits in a helper; its nil test cannot be related to the node loop")
+		return
+	}
 
-	// inner loop over N.JumpIf
+	// inner loop over N.JumpIf (in the validator or in a helper it calls for the node)
 	var inner *ast.RangeStmt
-	ast.Inspect(f.Body, func(n ast.Node) bool {
+	d.inside(f.Body, f, func(n ast.Node) bool {
 		if r, ok := n.(*ast.RangeStmt); ok {
 			if base, ok := d.fieldSel(r.X, a.fJump); ok && d.norm(base) == N {
 				inner = r
@@ -673,13 +735,14 @@ func c02ValidateJump(c *core.Ctx, a *c02Anchors, f *flow.Func, cons string, isSp
 		c.Violate("R-C02-7", cons+"|every jumpIf entry checked", pos(c, outer), "the jump validator does not range over the node's JumpIf: jumps are not validated at all")
 		return
 	}
+	gi := d.owner(inner) // the function holding the JumpIf loop
 	incInInner := false
 	for _, x := range incs {
-		if contains(inner, x) {
+		if up := d.liftTo(x, gi); up != nil && contains(inner, up) {
 			incInInner = true
 		}
 	}
-	if !contains(outer, inner) || incInInner {
+	if innerLoops, innerUp := loopsAround(inner); innerUp == nil || !contains(outer, innerUp) || innerLoops != 2 || incInInner { // enclosingLoops counts the loop itself
 		c.Violate("R-C02-7", cons+"|every jumpIf entry checked", pos(c, inner), "the loop over JumpIf is not inside the node loop / contains the counter increment")
 		return
 	}
@@ -688,7 +751,7 @@ func c02ValidateJump(c *core.Ctx, a *c02Anchors, f *flow.Func, cons string, isSp
 		target = c02Obj(f, inner.Value)
 	}
 	okInner := true
-	for _, x := range breaksOut(f, inner, labelOf(f.Body, inner)) {
+	for _, x := range breaksOut(gi, inner, labelOf(gi.Body, inner)) {
 		if es, ok := x.(*ast.ExprStmt); ok {
 			if call, ok := es.X.(*ast.CallExpr); ok {
 				if b, ok := f.Callee(call).(*types.Builtin); ok && b.Name() == "panic" {
@@ -702,11 +765,18 @@ func c02ValidateJump(c *core.Ctx, a *c02Anchors, f *flow.Func, cons string, isSp
 	// membership test
 	var member *ast.CallExpr
 	memberWhy := "the jump validator never tests the jumpIf key against the filter kind's Results (stringtool.StrInSlice): a jumpIf on a result the filter can never return is accepted"
-	for _, call := range callsTo(f, inner.Body, false, "pkg/util/stringtool.StrInSlice") {
+	var memberCalls []*ast.CallExpr
+	d.inside(inner.Body, gi, func(n ast.Node) bool {
+		if call, ok := n.(*ast.CallExpr); ok && calleeIs(f, call, "pkg/util/stringtool.StrInSlice") {
+			memberCalls = append(memberCalls, call)
+		}
+		return true
+	})
+	for _, call := range memberCalls {
 		if len(call.Args) != 2 {
 			continue
 		}
-		if resKey == nil || c02Obj(f, call.Args[0]) != resKey {
+		if resKey == nil || d.rootObj(call.Args[0]) != resKey {
 			memberWhy = "the membership test does not test the jumpIf key (result)"
 			continue
 		}
@@ -724,7 +794,7 @@ func c02ValidateJump(c *core.Ctx, a *c02Anchors, f *flow.Func, cons string, isSp
 		kc, ok := d.alias(gk.Args[0]).(*ast.CallExpr)
 		good := false
 		if ok {
-			if sel, ok := ast.Unparen(kc.Fun).(*ast.SelectorExpr); ok && sel.Sel.Name == "Kind" && c02Obj(f, sel.X) == specObj {
+			if sel, ok := ast.Unparen(kc.Fun).(*ast.SelectorExpr); ok && sel.Sel.Name == "Kind" && d.canon(sel.X) == specObj {
 				good = true
 			}
 		}
@@ -737,15 +807,15 @@ func c02ValidateJump(c *core.Ctx, a *c02Anchors, f *flow.Func, cons string, isSp
 	// count expressions
 	var countRenders []string
 	if target != nil {
-		ast.Inspect(inner.Body, func(n ast.Node) bool {
+		d.inside(inner.Body, gi, func(n ast.Node) bool {
 			switch x := n.(type) {
 			case *ast.IndexExpr:
-				if c02Obj(f, x.X) == vtObj && c02Obj(f, x.Index) == target {
+				if d.canon(x.X) == vtObj && d.rootObj(x.Index) == target {
 					countRenders = append(countRenders, f.Render(x))
 				}
 			case *ast.AssignStmt:
 				if len(x.Lhs) == 1 && len(x.Rhs) == 1 {
-					if ix, ok := ast.Unparen(x.Rhs[0]).(*ast.IndexExpr); ok && c02Obj(f, ix.X) == vtObj && c02Obj(f, ix.Index) == target {
+					if ix, ok := ast.Unparen(x.Rhs[0]).(*ast.IndexExpr); ok && d.canon(ix.X) == vtObj && d.rootObj(ix.Index) == target {
 						if id, ok := ast.Unparen(x.Lhs[0]).(*ast.Ident); ok {
 							countRenders = append(countRenders, f.Render(id))
 						}
@@ -757,7 +827,7 @@ func c02ValidateJump(c *core.Ctx, a *c02Anchors, f *flow.Func, cons string, isSp
 	}
 	// END comparisons of this node
 	var endKeys []string
-	ast.Inspect(f.Body, func(n ast.Node) bool {
+	d.inside(f.Body, f, func(n ast.Node) bool {
 		if x, ok := n.(*ast.BinaryExpr); ok && (x.Op == token.EQL || x.Op == token.NEQ) {
 			for _, pr := range [][2]ast.Expr{{x.X, x.Y}, {x.Y, x.X}} {
 				if base, ok := d.fieldSel(pr[0], a.fName); ok && d.norm(base) == N {
@@ -782,6 +852,7 @@ func c02ValidateJump(c *core.Ctx, a *c02Anchors, f *flow.Func, cons string, isSp
 	innerIter, outerIter := 0, 0
 	res := analyze(c, f, flow.Config{
 		NoHavoc: true,
+		Inline:  inlineSamePkg(f),
 		OnBlock: func(st *flow.State, b *cfg.Block) {
 			switch {
 			case b.Stmt == outer && b.Kind == cfg.KindForBody:
@@ -849,7 +920,7 @@ func c02ValidateJump(c *core.Ctx, a *c02Anchors, f *flow.Func, cons string, isSp
 		OnCall: func(st *flow.State, call *ast.CallExpr, callee types.Object, deferred bool) {
 			// a method call on the looked-up spec (an interface value) panics when the filter
 			// is unknown: that is a rejection too (Spec.Validate recovers it)
-			if sel, ok := ast.Unparen(call.Fun).(*ast.SelectorExpr); ok && c02Obj(f, sel.X) == specObj && types.IsInterface(specObj.Type()) {
+			if sel, ok := ast.Unparen(call.Fun).(*ast.SelectorExpr); ok && d.canon(sel.X) == specObj && types.IsInterface(specObj.Type()) {
 				st.Set(evDeref, flow.True)
 			}
 		},
